@@ -52,7 +52,7 @@ func c02tokens() []c02tok {
 
 func nanValue() float64 { var z float64; return z / z }
 
-var c02msgs = []string{"m", "", " ", "\n", "\t\r\n", "a\nb", "a\n", "\xff\xfe", strings.Repeat("0123456789", 200), "a\x00b", "\x1b[31mred", "  x  ", "<b>m</b>", "%d %s", `"quoted"`}
+var c02msgs = []string{"m", "", " ", "\n", "\t\r\n", "a\nb", "a\n", "a\nb\n", "\nx", "\n\nx\n", "a\r\nb\r\n", "\r\nx", "\xff\xfe", strings.Repeat("0123456789", 200), "a\x00b", "\x1b[31mred", "  x  ", "<b>m</b>", "%d %s", `"quoted"`}
 
 type c02entry struct {
 	name  string
@@ -357,6 +357,9 @@ func c02cases(thorough bool, emit func(c02case)) {
 				for _, lv := range levels {
 					for d := 0; d < 3; d++ {
 						emit(c02case{Layer: "B-msg-level-dest", Entry: e.name, MsgQ: qk(m), Args: []string{`"k"`, "1"}, Format: f, Level: int(lv), Dest: d})
+						if strings.Contains(m, "\n") && lv == slog.TraceLevel {
+							emit(c02case{Layer: "B-msg-level-dest", Entry: e.name, MsgQ: qk(m), Args: []string{`"k"`, "error", "Group(flat)"}, Format: f, Level: int(lv), Dest: d})
+						}
 					}
 				}
 			}
